@@ -295,7 +295,7 @@ func RunTables(c *sim.Ctx) {
 	}
 	nOps := knobInt(c, "ops", 3, maxOps)
 	baseKind := knobInt(c, "base", 0, 1) // 0 simdisk store, 1 flushable over simdisk store (keeps references to key slices)
-	c.ProbeDecl("nested_table", "prefix_related_tables", "write_of_empty_key", "whole_table_compaction", "prefix_ending_in_ff")
+	c.ProbeDecl("nested_table", "prefix_related_tables", "write_of_empty_key", "whole_table_compaction", "prefix_ending_in_ff", "drop_called_on_a_table_view")
 
 	disk := NewDisk()
 	raw, _ := disk.Producer().OpenDB("x")
@@ -357,7 +357,7 @@ func RunTables(c *sim.Ctx) {
 
 	weights := make([]int, nOps_)
 	copy(weights, []int{oPut: 10, oDel: 5, oGet: 6, oScan: 7, oBPut: 4, oBDel: 2, oBWrite: 3, oBReset: 1, oBReplay: 2, oSnapNew: 2, oSnapRead: 4,
-		oSnapRel: 1, oIterNew: 3, oIterStep: 5, oIterRel: 1, oFlush: 1, oDropNF: 0, oNFPairs: 0, oReopen: 3, oInitUnder: 2})
+		oSnapRel: 1, oIterNew: 3, oIterStep: 5, oIterRel: 1, oFlush: 1, oDropNF: 1, oNFPairs: 0, oReopen: 3, oInitUnder: 2})
 	gen := func() (sim.Op, bool) {
 		if len(c.Trace.Ops) >= nOps {
 			return sim.Op{}, false
@@ -427,6 +427,19 @@ func RunTables(c *sim.Ctx) {
 			if k, _, ok := split2(op.A); ok && len(k) == 0 {
 				c.Probe("write_of_empty_key")
 			}
+		case oDropNF:
+			// (the flushable operation of this number is not used for tables) Drop through a table view: a view is not the
+			// database; nothing outside it - and in this library nothing at all - may be dropped
+			dropsBefore := disk.Drops["x"]
+			t.t.Drop()
+			c.Probe("drop_called_on_a_table_view")
+			if disk.Drops["x"] != dropsBefore {
+				c.Violation("table-isolation", "table-isolation/drop-reaches-the-database", "[%s] Drop() on the table view dropped the underlying database (which holds the other tables too)", t.sub.name)
+			}
+			if rawNow := readBase(); !sameDB(rawNow, under) {
+				c.Violation("table-isolation", "table-isolation/drop-reaches-the-database", "[%s] after Drop() on the table view the underlying store holds %s, expected %s", t.sub.name, fmtDB(rawNow), fmtDB(under))
+			}
+			continue
 		}
 		t.sub.exec(op)
 		// fold the table's writes back into the underlying model and compare with the real store
